@@ -293,6 +293,24 @@ def make_csv_sim_classes(t):
 
 _sim_classes = {}
 _hist = {'con': None}
+_returned = []      # (operation index, output list, its canonical form when the operation returned): nothing may write there later
+
+
+def note_returned(out):
+    _returned.append((_hist.get('op_index', len(_returned)), out, core.canon(_fold_bigints(out))))
+
+
+def late_writes():
+    """Outputs of operations that had already returned and were written to afterwards (a finaliser or a left-over
+    callback finishing a writer during a later operation). The collector is run first: it may run at any allocation."""
+    import gc
+    gc.collect()
+    changed = []
+    for idx, out, before in _returned:
+        now = core.canon(_fold_bigints(out))
+        if now != before:
+            changed.append({'operation': idx, 'returned_as': before[:300], 'now': now[:300]})
+    return changed
 
 
 def sim_classes(t):
@@ -327,8 +345,18 @@ def run_op(t, op, baton=None, tid=0):
     """Execute one operation; returns a JSON-able outcome."""
     rows = [list(r) for r in op['rows']]
     join_rows = [list(r) for r in op['join_rows']] if op.get('join_rows') is not None else None
-    header = op.get('header')
-    jheader = op.get('join_header')
+    # fresh list objects per operation, freed when it ends (as a caller's temporaries are): a later operation's lists may
+    # then live at the same addresses, which is what anything keyed by id() must survive
+    header = list(op['header']) if op.get('header') is not None else None
+    jheader = list(op['join_header']) if op.get('join_header') is not None else None
+    if _hist.get('shared_lists') is not None:
+        # a caller that keeps one list object for its column names and refills it for every query
+        if header is not None:
+            _hist['shared_lists'][0][:] = header
+            header = _hist['shared_lists'][0]
+        if jheader is not None:
+            _hist['shared_lists'][1][:] = jheader
+            jheader = _hist['shared_lists'][1]
     warnings = []
     api = op['api']
     try:
@@ -341,7 +369,11 @@ def run_op(t, op, baton=None, tid=0):
             if op.get('join_missing'):
                 reg = SimRegistry([], None, baton, tid)
                 reg.get_iterator_by_table_id = lambda table_id, alias: None
-            t.engine.query(op['query'], it, wr, warnings, reg, user_init_code=op.get('init', ''))
+            note_out = out
+            try:
+                t.engine.query(op['query'], it, wr, warnings, reg, user_init_code=op.get('init', ''))
+            finally:
+                note_returned(note_out)
             return norm(['ok', out, wr.header, warnings])
         if api == 'csviter':
             import io as _io
@@ -371,7 +403,10 @@ def run_op(t, op, baton=None, tid=0):
                     args.append(jheader)
                 t.engine.query_table(*args)
                 return norm(['ok', out, None, warnings])
-            t.engine.query_table(op['query'], rows, out, warnings, join_rows, header, jheader, out_header, op.get('normalize', True), op.get('init', ''))
+            try:
+                t.engine.query_table(op['query'], rows, out, warnings, join_rows, header, jheader, out_header, op.get('normalize', True), op.get('init', ''))
+            finally:
+                note_returned(out)
             return norm(['ok', out, out_header, warnings])
         if api == 'df':
             import pandas
@@ -511,8 +546,10 @@ def child_history(sc):
             os.unlink(path)
         _hist['con'] = sqlite3.connect(path)
     before = process_state()
+    _hist['shared_lists'] = ([], []) if sc.get('reuse_header_lists') else None
     try:
-        for op in sc['ops']:
+        for op_index, op in enumerate(sc['ops']):
+            _hist['op_index'] = op_index
             if op.get('from_handler'):
                 # a caller's fallback query, issued from the except block that caught an earlier failure
                 try:
@@ -522,13 +559,14 @@ def child_history(sc):
             else:
                 outs.append(run_op(t, op))
             states.append(module_state(t))
+        late = late_writes()
     finally:
         if _hist.get('con') is not None:
             _hist['con'].close()
             _hist['con'] = None
     after = process_state()
     changed = sorted(k for k in before if before[k] != after[k])
-    return {'outcomes': outs, 'states': states, 'process_state_changed': changed}
+    return {'outcomes': outs, 'states': states, 'process_state_changed': changed, 'late_writes': late}
 
 
 def child_enumerate(sc):
@@ -709,7 +747,10 @@ def generate(rng, tier, idx):
                 o['omit_optional'] = True
             if i > 0 and rng.random() < 0.12:
                 o['from_handler'] = True
-        return {'part': 'A', 'ops': ops}
+        hist = {'part': 'A', 'ops': ops}
+        if rng.random() < 0.2:
+            hist['reuse_header_lists'] = True
+        return hist
     n = 2 if rng.random() < (0.85 if tier == 'quick' else 0.7) else 3
     kinds = rng.sample(THREAD_KINDS, n)
     same_family = rng.random() < 0.35
@@ -768,6 +809,10 @@ def execute(sc):
                 break
         if res['verdict'] == 'ok' and obs.get('process_state_changed'):
             res.update(verdict='violation', oracle='process_state', detail={'changed': obs['process_state_changed'], 'kind': sc['ops'][-1]['kind'], 'history': [o['kind'] for o in sc['ops']]})
+        if res['verdict'] == 'ok' and obs.get('late_writes'):
+            lw = obs['late_writes'][0]
+            res.update(verdict='violation', oracle='history', detail={'op_index': lw['operation'], 'kind': sc['ops'][min(lw['operation'], len(sc['ops']) - 1)]['kind'],
+                                                                       'late_write': lw, 'note': 'the output of an operation that had already returned (or failed) was written to afterwards'})
         res['digest'] = core.digest(_hash_neutral([obs, refs]))
         return res
     if sc.get('enumerate'):
